@@ -22,6 +22,11 @@ SortedFlat(it) == LET ks == SetToSortSeq(KeysOf(it), <) IN
 (* snapshot-style reads added to the sequential specification *)
 LinOutcomes(s, o) ==
     IF o.op = "copy" THEN {[s |-> s, r |-> Ok(SortedFlat(s.it))]}
+    ELSE IF o.op \in {"eq", "ne"} THEN
+         (* comparison with a plain mapping (distinct keys): one look at one state *)
+         LET same == /\ Len(o.arg) = Len(s.it)
+                     /\ \A i \in 1..Len(o.arg) : Has(s.it, o.arg[i].k) /\ ValOf(s.it, o.arg[i].k) = o.arg[i].v
+         IN {[s |-> s, r |-> Ok(<<IF (o.op = "eq") = same THEN 1 ELSE 0>>)]}
     ELSE IF o.op = "keys" THEN {[s |-> s, r |-> Ok(SetToSortSeq(KeysOf(s.it), <))]}
     ELSE {[s |-> x.s, r |-> x.r] : x \in Outcomes(s, o)}
 
